@@ -424,6 +424,7 @@ func c17SeqWorker(ctx *rt.Ctx, job *rt.Job, a c17Args) []*rt.Violation {
 type c17Params struct {
 	Threads int  `json:"threads"`
 	Mixed   bool `json:"mixed"` // one thread re-opens after closing (open/close/open)
+	Args    bool `json:"args"`  // every thread binds a different argument (direct and prepared path)
 }
 
 func c17Driver() driver.Driver {
@@ -436,6 +437,19 @@ func c17ConcScenario(ctx *rt.Ctx, p c17Params, outcome *string) vsched.Scenario 
 	c17Init(ctx)
 	drv := c17Driver()
 	want := c17Expected(0)
+	wantArg := map[string]string{}
+	if p.Args {
+		d := model.FromRows(c17Rows(0))
+		for _, v := range []string{"1", "5"} {
+			sel, _ := d.Eval(model.Eq("a", v))
+			g, _ := d.GroupBy(sel, []string{"c"})
+			var s []string
+			for _, x := range g {
+				s = append(s, fmt.Sprintf("%s:%d", x.Fields[0].Value, x.Count))
+			}
+			wantArg[v] = strings.Join(s, ",")
+		}
+	}
 	return func() ([]func(), func(*vsched.Result) string) {
 		c17Seq++
 		file := filepath.Join(ctx.Scratch, fmt.Sprintf("c17c-%d.updog", c17Seq))
@@ -447,7 +461,20 @@ func c17ConcScenario(ctx *rt.Ctx, p c17Params, outcome *string) vsched.Scenario 
 			if err != nil {
 				return "open error: " + err.Error()
 			}
-			rows, err := conn.(driver.QueryerContext).QueryContext(context.Background(), c17Query, nil)
+			var rows driver.Rows
+			if p.Args {
+				arg := []string{"1", "5"}[t%2]
+				if t < 2 {
+					rows, err = conn.(driver.QueryerContext).QueryContext(context.Background(), c17PrepQuery, []driver.NamedValue{{Ordinal: 1, Value: arg}})
+				} else {
+					var st driver.Stmt
+					if st, err = conn.Prepare(c17PrepQuery); err == nil {
+						rows, err = st.Query([]driver.Value{arg})
+					}
+				}
+			} else {
+				rows, err = conn.(driver.QueryerContext).QueryContext(context.Background(), c17Query, nil)
+			}
 			if err != nil {
 				conn.Close()
 				return "query error: " + err.Error()
@@ -473,7 +500,7 @@ func c17ConcScenario(ctx *rt.Ctx, p c17Params, outcome *string) vsched.Scenario 
 			t := t
 			bodies = append(bodies, func() {
 				got[t] = use(t)
-				if p.Mixed && t == 0 && got[t] == want {
+				if p.Mixed && t == 0 && (got[t] == want || p.Args) {
 					got[t] = use(t)
 				}
 			})
@@ -481,8 +508,12 @@ func c17ConcScenario(ctx *rt.Ctx, p c17Params, outcome *string) vsched.Scenario 
 		check := func(r *vsched.Result) string {
 			defer os.Remove(file)
 			for t, g := range got {
-				if g != want {
-					return fmt.Sprintf("thread %d: %q, expected rows %q", t, g, want)
+				w := want
+				if p.Args {
+					w = wantArg[[]string{"1", "5"}[t%2]]
+				}
+				if g != w {
+					return fmt.Sprintf("thread %d: %q, expected rows %q", t, g, w)
 				}
 			}
 			if !flk.Free(file) {
@@ -525,9 +556,9 @@ func c17Run(ctx *rt.Ctx) []*rt.Violation {
 		p     c17Params
 		bound int
 	}
-	concs := []cc{{c17Params{Threads: 2}, 2}, {c17Params{Threads: 2, Mixed: true}, 2}, {c17Params{Threads: 3}, 1}}
+	concs := []cc{{c17Params{Threads: 2}, 2}, {c17Params{Threads: 2, Mixed: true}, 2}, {c17Params{Threads: 3}, 1}, {c17Params{Threads: 2, Args: true}, 2}, {c17Params{Threads: 3, Args: true}, 1}}
 	if ctx.Thorough() {
-		concs = []cc{{c17Params{Threads: 2}, 4}, {c17Params{Threads: 2, Mixed: true}, 3}, {c17Params{Threads: 3}, 2}, {c17Params{Threads: 3, Mixed: true}, 2}}
+		concs = []cc{{c17Params{Threads: 2}, 4}, {c17Params{Threads: 2, Mixed: true}, 3}, {c17Params{Threads: 3}, 2}, {c17Params{Threads: 3, Mixed: true}, 2}, {c17Params{Threads: 2, Args: true}, 3}, {c17Params{Threads: 3, Args: true}, 2}}
 	}
 	var conc []rt.Job
 	for _, c := range concs {
